@@ -430,7 +430,6 @@ func c17OrderAndDrain(c *Ctx) {
 	}
 }
 
-
 // c17BufOp: one operation on the buffer of non-finalised logs performed by fn or a same-package helper, with the condition
 // (in fn's terms) under which it is performed. A removal is either delete(buf, k) — the condition is that of the call site,
 // which for a delete inside `for k := range buf` is the per-key filter — or maps.DeleteFunc(buf, pred), whose condition is
